@@ -279,7 +279,7 @@ func genC07Script(r *rng, id string, cnt counters, emit func(line, out string)) 
 				g = int64(blk.Sequences[k].LitLen) + int64(blk.Sequences[k].MatchLen)
 			}
 			if en == "matchLen" && g > int64(e.buf.BufferSize-e.buf.WindowSize) {
-				cnt.inc("c07.known.neverfits")
+				cnt.inc("c07.known.neverfits") // reported by dExec.classify as a C07 finding (known)
 			} else {
 				e.find("C07", "Decoder refuses a block emitted by a parser of this module", "Decoder.WriteBlock",
 					fmt.Sprintf("kind=%s err=%s k=%d g=%d B=%d W=%d", kind, en, k, g, e.buf.BufferSize, e.buf.WindowSize))
